@@ -209,6 +209,9 @@ struct PackData {
     entries: Vec<(u64, gix_hash::ObjectId)>,
     label: String,
     max_chain: u32,
+    /// a thin pack: entries at or beyond this offset (bases appended by `index-pack --fix-thin` to obtain an index)
+    /// do not belong to the pack file that is read; their objects are handed out as `ResolvedBase::OutOfPack`
+    thin_end: Option<u64>,
 }
 
 fn git_batch_all(repo: &Path, ids: &[String]) -> HashMap<gix_hash::ObjectId, (String, Vec<u8>)> {
@@ -338,7 +341,7 @@ fn pack_objects_at(repo: &Path, objects: &[(String, String)], depth: u32, window
     let ids: Vec<String> = objects.iter().map(|o| o.0.clone()).collect();
     let truth = git_batch_all(repo, &ids);
     let entries: Vec<(u64, gix_hash::ObjectId)> = index.iter().map(|e| (e.pack_offset, e.oid)).collect();
-    Some(PackData { pack, index, truth, entries, label: format!("depth={depth} window={window} ofs={ofs}"), max_chain: 0 })
+    Some(PackData { pack, index, truth, entries, label: format!("depth={depth} window={window} ofs={ofs}"), max_chain: 0, thin_end: None })
 }
 
 fn decode_one(
@@ -350,8 +353,20 @@ fn decode_one(
 ) -> Result<Result<gix_pack::data::decode::entry::Outcome, String>, String> {
     catch(move || {
         let entry = pd.pack.entry(offset).map_err(|e| e.to_string())?;
-        let resolve = |id: &gix_hash::oid, _out: &mut Vec<u8>| {
-            pd.index.lookup(id).and_then(|i| pd.pack.entry(pd.index.pack_offset_at_index(i)).ok()).map(ResolvedBase::InPack)
+        let resolve = |id: &gix_hash::oid, out: &mut Vec<u8>| {
+            let offset = pd.index.lookup(id).map(|i| pd.index.pack_offset_at_index(i));
+            match (offset, pd.thin_end) {
+                (Some(o), None) => pd.pack.entry(o).ok().map(ResolvedBase::InPack),
+                (Some(o), Some(end)) if o < end => pd.pack.entry(o).ok().map(ResolvedBase::InPack),
+                (_, Some(_)) => {
+                    // the base lives outside the (thin) pack: hand it out the way an object database would
+                    let (t, bytes) = pd.truth.get(&id.to_owned())?;
+                    out.clear();
+                    out.extend_from_slice(bytes);
+                    Some(ResolvedBase::OutOfPack { kind: parse_kind(t)?, end: out.len() })
+                }
+                (None, None) => None,
+            }
         };
         pd.pack.decode_entry(entry, out, inflate, &resolve, cache).map_err(|e| e.to_string())
     })
@@ -441,7 +456,12 @@ fn pack_correspondence(rep: &mut Report, r: &mut Rng, pd: &PackData, spec: &str,
             Header::RefDelta { base_id } => {
                 line.push_str(&format!(" {offset} r {} {} {packed}", base_id, hex(&buf)));
                 if let Some(i) = pd.index.lookup(base_id) {
-                    ids.push_str(&format!(" {} {}", base_id, pd.index.pack_offset_at_index(i)));
+                    let o = pd.index.pack_offset_at_index(i);
+                    if pd.thin_end.map_or(true, |end| o < end) {
+                        ids.push_str(&format!(" {} {}", base_id, o));
+                    } else if let Some((t, bytes)) = pd.truth.get(&base_id) {
+                        ids.push_str(&format!(" {} x:{}:{}", base_id, t, hex(bytes)));
+                    }
                     n_ids += 1;
                 }
             }
@@ -538,6 +558,9 @@ fn pack_level(rep: &mut Report, seed: u64, thorough: bool, scale: u64, scratch: 
     }
     for i in 0..budget(1, 2) {
         big_offset_delta(rep, &mut r, &scratch.join(format!("bigofs{i}")));
+    }
+    for i in 0..budget(2, 8) {
+        thin_pack(rep, &mut r, &scratch.join(format!("thin{i}")), i % 2 == 0);
     }
     // small packs: entry graph to the model as well
     let n_small = budget(4, 20);
@@ -701,6 +724,67 @@ fn chain_order_oracle(rep: &mut Report, pd: &PackData) {
             }
         }
     }
+}
+
+/// a THIN pack: deltas against objects that are not in the pack (`ResolvedBase::OutOfPack` from the resolve callback)
+fn thin_pack(rep: &mut Report, r: &mut Rng, dir: &Path, small: bool) {
+    let (fam, ver, lines) = if small { (1, 8, 8) } else { (3, 8, 40) };
+    let _objects = make_repo(dir, r, fam, ver, lines);
+    // `--thin` reads revisions: everything reachable from the newest commit but not from an older one; objects of the
+    // older commit are "edge" objects the receiver has, deltas against them stay in the pack as ref-deltas
+    let commits: Vec<String> = git_ok(dir, &["rev-list", "refs/tags/v1"], None).lines().map(str::to_string).collect();
+    if commits.len() < 3 {
+        rep.note("thin pack: too few commits");
+        return;
+    }
+    let list = format!("{}\n^{}\n", commits[0], commits[commits.len() / 2]);
+    let ofs = r.chance(1, 2);
+    let mut args = vec!["pack-objects", "--thin", "--stdout", "--depth=50", "--window=10", "-q"];
+    if ofs {
+        args.push("--delta-base-offset");
+    }
+    let o = git(dir, &args, Some(list.as_bytes()));
+    if !o.ok || o.stdout.len() < 32 {
+        rep.note("could not build a thin pack");
+        return;
+    }
+    let thin_path = dir.join("thin.pack");
+    std::fs::write(&thin_path, &o.stdout).expect("write");
+    // an index for it: `--fix-thin` appends the missing bases BEHIND the original entries, whose offsets stay
+    let fixed = git(dir, &["index-pack", "--fix-thin", "--stdin"], Some(&o.stdout));
+    let hash = String::from_utf8_lossy(&fixed.stdout).split_whitespace().last().unwrap_or("").to_string();
+    let idx_path = dir.join(".git").join("objects").join("pack").join(format!("pack-{hash}.idx"));
+    let (Ok(pack), Ok(index)) = (gix_pack::data::File::at(&thin_path, gix_hash::Kind::Sha1), gix_pack::index::File::at(&idx_path, gix_hash::Kind::Sha1)) else {
+        rep.note("could not open the thin pack / its index");
+        return;
+    };
+    let thin_end = o.stdout.len() as u64 - 20;
+    let all_ids: Vec<String> = index.iter().map(|e| e.oid.to_string()).collect();
+    let truth = git_batch_all(dir, &all_ids);
+    let entries: Vec<(u64, gix_hash::ObjectId)> = index.iter().filter(|e| e.pack_offset < thin_end).map(|e| (e.pack_offset, e.oid)).collect();
+    let mut pd = PackData { pack, index, truth, entries, label: format!("thin ofs={ofs}"), max_chain: 0, thin_end: Some(thin_end) };
+    let external = pd
+        .entries
+        .iter()
+        .filter_map(|(o, _)| pd.pack.entry(*o).ok())
+        .filter(|e| match e.header {
+            gix_pack::data::entry::Header::RefDelta { base_id } => pd.index.lookup(base_id).map_or(true, |i| pd.index.pack_offset_at_index(i) >= thin_end),
+            _ => false,
+        })
+        .count();
+    rep.bucket(if external > 0 { "thin:deltas-on-out-of-pack-bases" } else { "thin:NO-out-of-pack-base" });
+    if external == 0 {
+        rep.note("the thin pack has no delta against an object outside the pack");
+    }
+    if small {
+        for spec in ["never", "static:1:0", "static:64:0", "static:2:64", "mem:300:0", "mem:100000:0"] {
+            let nreq = 30 + r.usize(30);
+            pack_correspondence(rep, r, &pd, spec, nreq);
+        }
+    }
+    let n = pd.entries.len();
+    pack_oracle(rep, r, &mut pd, 2 * n, true);
+    chain_order_oracle(rep, &pd);
 }
 
 /// the caches as `gix_odb::Cache` wants them
